@@ -2089,8 +2089,12 @@ func (m *metadataAPI) checkResumeStreamPreconditions(op *proto.RaftLog) error {
 // or leader epoch of the request are not the partition's current ones, it
 // returns an error. Otherwise, it returns nil.
 func (m *metadataAPI) checkShrinkISRPreconditions(op *proto.RaftLog) error {
-	return m.checkLeaderGeneration(op.ShrinkISROp.Stream, op.ShrinkISROp.Partition,
-		op.ShrinkISROp.Leader, op.ShrinkISROp.LeaderEpoch)
+	req := op.ShrinkISROp
+	if req.ReplicaToRemove == req.Leader {
+		// The leader is always in the ISR.
+		return fmt.Errorf("cannot remove leader %s from the ISR", req.Leader)
+	}
+	return m.checkLeaderGeneration(req.Stream, req.Partition, req.Leader, req.LeaderEpoch)
 }
 
 // checkExpandISRPreconditions checks if the partition whose ISR is being
@@ -2099,8 +2103,20 @@ func (m *metadataAPI) checkShrinkISRPreconditions(op *proto.RaftLog) error {
 // leader or leader epoch of the request are not the partition's current ones,
 // it returns an error. Otherwise, it returns nil.
 func (m *metadataAPI) checkExpandISRPreconditions(op *proto.RaftLog) error {
-	return m.checkLeaderGeneration(op.ExpandISROp.Stream, op.ExpandISROp.Partition,
-		op.ExpandISROp.Leader, op.ExpandISROp.LeaderEpoch)
+	req := op.ExpandISROp
+	if err := m.checkLeaderGeneration(req.Stream, req.Partition, req.Leader, req.LeaderEpoch); err != nil {
+		return err
+	}
+	// Only a replica can join the ISR. Applying the operation fails otherwise.
+	partition := m.GetPartition(req.Stream, req.Partition)
+	if partition == nil {
+		return ErrPartitionNotFound
+	}
+	if !partition.inReplicas(req.ReplicaToAdd) {
+		return fmt.Errorf("%s is not a replica of partition [stream=%s, partition=%d]",
+			req.ReplicaToAdd, req.Stream, req.Partition)
+	}
+	return nil
 }
 
 // checkLeaderGeneration checks that the partition exists and that the given
